@@ -56,7 +56,7 @@ def make(name):
     if name == 'ellipse':
         return R.EllipsePixelRegion(c(48.0, 62.5), 9.0, 5.0, angle=30 * u.deg, meta=m(text='ell'), visual=v(color='green', fill=True))
     if name == 'rectangle':
-        return R.RectanglePixelRegion(c(51.25, 58.0), 7.0, 3.5, angle=-20 * u.deg, meta=m(tag=['box']), visual=v(linestyle='dashed'))
+        return R.RectanglePixelRegion(c(51.25, 58.0), 7.0, 3.5, angle=-0.375 * u.rad, meta=m(tag=['box']), visual=v(linestyle='dashed'))
     if name == 'polygon':
         return R.PolygonPixelRegion(PixCoord([45.0, 52.0, 50.5, 46.25], [50.0, 51.5, 57.0, 56.0]), meta=m(text='poly'), visual=v(color='cyan'))
     if name == 'regpoly':
@@ -64,7 +64,7 @@ def make(name):
     if name == 'circleannulus':
         return R.CircleAnnulusPixelRegion(c(50.0, 60.0), 2.5, 6.0, meta=m(text='ann'), visual=v(color='yellow'))
     if name == 'ellipseannulus':
-        return R.EllipseAnnulusPixelRegion(c(49.0, 59.0), 3.0, 8.0, 2.0, 6.0, angle=45 * u.deg, meta=m(text='eann'))
+        return R.EllipseAnnulusPixelRegion(c(49.0, 59.0), 3.0, 8.0, 2.0, 6.0, angle=2700 * u.arcmin, meta=m(text='eann'))
     if name == 'rectangleannulus':
         return R.RectangleAnnulusPixelRegion(c(52.0, 63.0), 2.0, 7.0, 1.5, 5.0, angle=10 * u.deg, meta=m(text='rann'))
     if name == 'point':
@@ -84,7 +84,7 @@ def make(name):
     if name == 'sky_ellipse_excl':
         return R.EllipseSkyRegion(s(39.998, 20.003, 'fk5'), 20 * u.arcsec, 10 * u.arcsec, angle=70 * u.deg, meta=m(include=False))
     if name == 'sky_rectangle':
-        return R.RectangleSkyRegion(s(39.997, 20.002), 25 * u.arcsec, 12 * u.arcsec, angle=-15 * u.deg, meta=m(text='sr'))
+        return R.RectangleSkyRegion(s(39.997, 20.002), 25 * u.arcsec, 12 * u.arcsec, angle=-0.25 * u.rad, meta=m(text='sr'))
     if name == 'sky_polygon':
         return R.PolygonSkyRegion(SkyCoord([40.0, 40.006, 40.004, 39.999] * u.deg, [20.0, 20.001, 20.006, 20.005] * u.deg), meta=m(text='sp'))
     if name == 'sky_circleannulus':
